@@ -40,7 +40,7 @@ ASSUMPTIONS = [
 
 # cc1 write errors on the output (ENOSPC: `-o /dev/full`).  None: cases not generated; 'fixed': ordinary cases (the
 # driver must exit non-zero); 'known': generated and tagged with the known-finding id below.
-WRITE_ERROR_CASES = None
+WRITE_ERROR_CASES = 'fixed'
 WRITE_ERROR_KNOWN_ID = 'C14-write-error-ignored'
 
 SIGNUM = {'SEGV': 11, 'KILL': 9, 'TERM': 15, 'ABRT': 6}
